@@ -39,6 +39,8 @@ class P(Prop):
         pool = ["1", "7801", "a.b", "https://x.y,https://z", "true", "", "x-y", "é", "0", "127.0.0.2", "GET,PUT"]
         if not plain:
             pool += ["x y", "q#r", "a=b", "[1]", "'s'", "\"d\""]
+        if rnd.random() < 0.1:
+            return ""              # a layer may supply the empty value: it still takes precedence over the layers below
         return tag + rnd.choice(pool)
 
     def gen(self, rnd, tier, n):
@@ -53,7 +55,7 @@ class P(Prop):
                 if src & 2:
                     f = self.val(rnd, "F", True)
                     key = rnd.choice([k, k.replace("_", "-"), k.replace("-", "_")])
-                    q = rnd.choice(['"%s"', "'%s'", "%s", '["%s"]', "[ '%s' ]"]) % f
+                    q = (rnd.choice(['"%s"', "'%s'", "%s", '["%s"]', "[ '%s' ]"]) % f) if f != "" else rnd.choice(['""', "''", "[]", "[ ]"])
                     line = rnd.choice(["%s = %s", "%s=%s", "%s  =  %s  ", "%s\t=\t%s", "%s = %s # comment", "%s =\t %s\t# c # d", "  %s = %s", "\t%s=%s"]) % (key, q)
                     (cors if tb else top).append(line)
                 if src & 4:
